@@ -971,6 +971,10 @@ def _make_exprlike_fst(  # TODO: this needs a refactor, cleanup and simplificati
                 del_tgt_pars = True
                 tgt_has_pars = False
 
+            if tgt_has_pars and put_is_star:  # the parentheses of the target cannot stay around a Starred, if any are needed they go around its value
+                del_tgt_pars = True
+                tgt_has_pars = False
+
             if tgt_has_pars:
                 if not need_pars(True):
                     if pars is True or not (
